@@ -66,8 +66,45 @@ class Machine:
             if self.acc_local is not None:
                 acc = r.state.mem.get(('L', 1, self.acc_local))
             out.append({'status': 'loopback', 'r': r, 'env': env, 'fin': fin, 'stores': stores, 'calls': calls, 'acc': acc,
-                        'ip': ip})
+                        'ip': ip, 'acc_keeps': self.acc_keeps(acc, env)})
         return out
+
+    def acc_keeps(self, acc, env):
+        """does the request accumulator at the end of the iteration still contain every bit it had at the head?
+        True / False / None (accumulator not understood)"""
+        v = acc
+        for _ in range(4):
+            if v is not None and v[0] == 'agg' and len(v[2]) == 1:
+                v = v[2][0]
+            elif v is not None and v[0] == 'snap':
+                ov = [x for k, x in v[2] if k == ('f', 0)]
+                if ov:
+                    v = ov[0]
+                else:
+                    return True
+            elif v is not None and v[0] == 's' and v[1] == 0:
+                return True        # untouched in this step
+        if v is None or not T.is_int(v):
+            return None
+        from .c03 import syms_of
+        from ..affine import equal_mod
+        tagl = '_%d' % self.acc_local
+        heads = [s_ for s_ in syms_of(v) if 'loopvar:' in s_[2] and (s_[2].endswith(tagl) or (tagl + '.') in s_[2])]
+        if v[0] == 'c':
+            return False if self.acc_local is not None else None
+        if not heads:
+            return False
+        h = heads[0]
+
+        def keeps(t):
+            if t == h:
+                return True
+            if t[0] == 'o' and t[2] == 'or':
+                return any(keeps(a) for a in t[3:])
+            return False
+        if keeps(v):
+            return True
+        return bool(equal_mod(O(v[1], 'and', h, O(v[1], 'not', v)), C(v[1], 0), env, v[1]))
 
 
 def acc_bits(p):
@@ -370,10 +407,18 @@ def run(ctx, chk):
         t = fn['blocks'][b]['term']
         if t['k'] == 'call':
             calls.add(t['resolved'] or t['callee'])
-    if any('bitor_assign' in c for c in calls):
-        chk.ok('C14.5', 'accumulator', sample={'requests': 'OR-accumulated'})
+    ACC_LOSS = {}
+    for m_ in sorted(all_paths):
+        for i_, p in enumerate(all_paths[m_]):
+            if p['status'] == 'loopback':
+                ACC_LOSS['in mode %d (path %d)' % (m_, i_)] = (p.get('acc_keeps') is False)
+    lost = [k for k, v in ACC_LOSS.items() if v]
+    if any('bitor_assign' in c for c in calls) and not lost:
+        chk.ok('C14.5', 'accumulator', sample={'requests': 'OR-accumulated', 'iteration paths examined': len(ACC_LOSS)})
     else:
-        chk.fail('C14.5', 'accumulator', 'interrupt requests are not OR-accumulated in the loop', file, None)
+        chk.fail('C14.5', 'accumulator', 'interrupt requests are not OR-accumulated in the loop'
+                 + ((': requests collected earlier in the same batch are dropped on the step %s' % lost[0]) if lost else ''),
+                 file, None)
     chk.assumptions += ['every clock count delivered to the LCD controller is a multiple of 4 (C09.6)',
                         'pixel output during mode 3 is outside this property (C15)',
                         'the emulator splits the 376 clocks of modes 3+0 evenly (188/188), as the property states']
